@@ -85,6 +85,9 @@ func (it *Iterator) Refresh() {
 		it.iter.Close()
 		it.iter = it.snap.db.store.NewIterator(it.snap.db.iterCmp, it.buf)
 		it.iter.Seek(unsafe.Pointer(itm))
+		// Seek lands on the oldest version of the key, which may not be
+		// visible in this snapshot
+		it.skipUnwanted()
 	}
 }
 
